@@ -50,7 +50,7 @@ type pickSpec struct {
 }
 
 type step struct {
-	K    string        `json:"k"` // publish | rpc | cancel | kill | goaway | health | behav | sleep | wait
+	K    string        `json:"k"` // publish | rpc | cancel | kill | goaway | health | behav | sleep | wait | idle | connect
 	P    *pickSpec     `json:"p,omitempty"`
 	WFR  bool          `json:"wfr,omitempty"`
 	D    time.Duration `json:"d,omitempty"`
@@ -60,9 +60,10 @@ type step struct {
 }
 
 type scenario struct {
-	Fam   string   `json:"fam"`
-	Addrs []string `json:"addrs"`
-	Steps []step   `json:"steps"`
+	Fam   string        `json:"fam"`
+	Addrs []string      `json:"addrs"`
+	Idle  time.Duration `json:"idle"` // channel idle timeout, 0 = idleness off
+	Steps []step        `json:"steps"`
 }
 
 var statusCodes = []codes.Code{codes.PermissionDenied, codes.ResourceExhausted, codes.Unavailable, codes.Unauthenticated, codes.Internal, codes.NotFound, codes.DataLoss, codes.Aborted}
@@ -119,6 +120,22 @@ func gen(rng *rand.Rand, fam string) scenario {
 		default:
 			sc.Steps = append(sc.Steps, step{K: "wait"})
 		}
+		if fam == "idle" && rng.Intn(7) == 0 {
+			// Let the channel go IDLE behind whatever picker is installed (often an error
+			// picker, published right before), then wake it up with RPCs or Connect while
+			// the re-created policy instance has not published anything yet.
+			if rng.Intn(2) == 0 {
+				sc.Steps = append(sc.Steps, step{K: "publish", P: genPick(rng, sc.Addrs)})
+			}
+			sc.Steps = append(sc.Steps, step{K: "idle"})
+			if rng.Intn(4) == 0 {
+				sc.Steps = append(sc.Steps, step{K: "connect"})
+			}
+			sc.Steps = append(sc.Steps, step{K: "rpc", WFR: rng.Intn(3) == 0, D: vlib.Pick(rng, 0, 0, 300*time.Millisecond, 2*time.Second), N: 1 + rng.Intn(3)})
+		}
+	}
+	if fam == "idle" {
+		sc.Idle = vlib.Pick(rng, time.Second, 2*time.Second, 5*time.Second)
 	}
 	return sc
 }
@@ -153,6 +170,7 @@ type rpcRec struct {
 	deadlineAt time.Duration // 0 = none
 	startSeq   int
 	gStart     int
+	epochFloor int // c.epochFloor when the RPC started
 	cancel     context.CancelFunc
 	cancelled  bool
 	picked     bool // NewStream returned without error
@@ -170,9 +188,15 @@ type ctl struct {
 	clock int
 	lb    *genLB
 	gen   int
-	pubs  []*pubRec
-	rpcs  []*rpcRec
-	picks int
+	// A channel that goes IDLE closes its LB policy and builds a new instance when
+	// it leaves IDLE.  epochFloor is the smallest generation the current (or next)
+	// instance can publish: pickers of closed instances (generations below it) must
+	// never be used by an RPC started after the instance was closed.
+	epoch      int
+	epochFloor int
+	pubs       []*pubRec
+	rpcs       []*rpcRec
+	picks      int
 	// subchannels as delivered to the policy
 	scState map[string][]connectivity.State
 	closing bool
@@ -203,6 +227,25 @@ func (c *ctl) completed() int {
 	return g
 }
 
+// floorNow is the oldest picker generation an operation starting now may use:
+// the latest completely published one, but never one of a closed policy instance.
+func (c *ctl) floorNow() int {
+	g := c.completed()
+	if c.epochFloor > g {
+		g = c.epochFloor
+	}
+	return g
+}
+
+// completedCurrent is the latest completely published generation of the
+// current policy instance (0 = it has not published yet).
+func (c *ctl) completedCurrent() int {
+	if g := c.completed(); g >= c.epochFloor {
+		return g
+	}
+	return 0
+}
+
 var registry = struct {
 	mu sync.Mutex
 	m  map[string]*ctl
@@ -222,6 +265,8 @@ func (genBuilder) Build(cc balancer.ClientConn, opts balancer.BuildOptions) bala
 	if c != nil {
 		c.mu.Lock()
 		c.lb = lb
+		c.epoch++
+		c.cnt["policy_instances"]++
 		c.mu.Unlock()
 	}
 	return lb
@@ -278,6 +323,19 @@ func (lb *genLB) Close() {
 	lb.mu.Lock()
 	lb.closed = true
 	lb.mu.Unlock()
+	if c := lb.c; c != nil {
+		// enterIdleMode resets the picker wrapper BEFORE it schedules this Close, so
+		// from this stamp on no pick may see a picker of this instance
+		c.mu.Lock()
+		if c.lb == lb {
+			c.lb = nil
+		}
+		c.epochFloor = c.gen + 1
+		if !c.closing {
+			c.cnt["policy_instances_closed_by_idle"]++
+		}
+		c.mu.Unlock()
+	}
 }
 
 type genPicker struct {
@@ -295,14 +353,18 @@ func (p *genPicker) Pick(info balancer.PickInfo) (balancer.PickResult, error) {
 	}
 	c := p.c
 	c.mu.Lock()
-	rec := &pickRec{seq: c.tick(), g: p.g, rid: rid, outcome: p.spec.Kind, addr: p.spec.Addr, code: p.spec.Code, floor: c.completed(),
+	rec := &pickRec{seq: c.tick(), g: p.g, rid: rid, outcome: p.spec.Kind, addr: p.spec.Addr, code: p.spec.Code, floor: c.floorNow(),
 		cold: p.spec.Kind == "sc" && strings.HasPrefix(p.spec.Addr, "cold")}
 	c.picks++
 	c.cnt["picks_"+p.spec.Kind]++
 	if rid >= 0 && rid < len(c.rpcs) {
 		r := c.rpcs[rid]
 		if rec.g < r.gStart {
-			c.v("stale-picker-used", "rpc %d started after the publication of picker generation %d had completed, yet a Pick for it ran on generation %d", rid, r.gStart, rec.g)
+			if rec.g < r.epochFloor {
+				c.v("stale-picker-used", "rpc %d started after the channel had gone IDLE and closed the LB policy instance that published picker generation %d (the next instance can only publish generation >= %d), yet a Pick for it ran on that stale generation (result: %s)", rid, rec.g, r.epochFloor, describe(rec))
+			} else {
+				c.v("stale-picker-used", "rpc %d started after the publication of picker generation %d had completed, yet a Pick for it ran on generation %d", rid, r.gStart, rec.g)
+			}
 		}
 		if n := len(r.picks); n > 0 {
 			prev := r.picks[n-1]
@@ -481,7 +543,7 @@ func run(sc scenario) *result {
 		grpc.WithTransportCredentials(insecure.NewCredentials()),
 		grpc.WithResolvers(mr),
 		grpc.WithContextDialer(nw.Dialer()),
-		grpc.WithIdleTimeout(0),
+		grpc.WithIdleTimeout(sc.Idle),
 		grpc.WithDefaultServiceConfig(`{"loadBalancingConfig":[{"`+lbName+`":{}}],"healthCheckConfig":{"serviceName":"hc"}}`),
 		grpc.WithConnectParams(grpc.ConnectParams{Backoff: backoff.Config{BaseDelay: 200 * time.Millisecond, Multiplier: 1.6, Jitter: 0.2, MaxDelay: time.Second}, MinConnectTimeout: time.Second}))
 	if err != nil {
@@ -494,7 +556,7 @@ func run(sc scenario) *result {
 	var wg sync.WaitGroup
 	startRPC := func(wfr bool, d time.Duration) {
 		c.mu.Lock()
-		r := &rpcRec{id: len(c.rpcs), wfr: wfr, startSeq: c.tick(), gStart: c.completed()}
+		r := &rpcRec{id: len(c.rpcs), wfr: wfr, startSeq: c.tick(), gStart: c.floorNow(), epochFloor: c.epochFloor}
 		ctx := context.WithValue(context.Background(), ridKey{}, r.id)
 		ctx = metadata.AppendToOutgoingContext(ctx, "x-rid", strconv.Itoa(r.id))
 		var cancel context.CancelFunc
@@ -539,7 +601,7 @@ func run(sc scenario) *result {
 		c.mu.Lock()
 		defer c.mu.Unlock()
 		c.cnt["quiescent_checks"]++
-		latest := c.completed()
+		latest := c.completedCurrent()
 		for _, r := range c.rpcs {
 			if r.finished {
 				continue
@@ -640,6 +702,27 @@ func run(sc scenario) *result {
 					c.mu.Unlock()
 				}
 			}
+		case "idle":
+			// no RPC may be in flight for the idle timer to fire
+			c.mu.Lock()
+			for _, r := range c.rpcs {
+				if !r.finished && !r.cancelled {
+					r.cancelled = true
+					r.cancel()
+				}
+			}
+			before := c.cnt["policy_instances_closed_by_idle"]
+			c.mu.Unlock()
+			synctest.Wait()
+			time.Sleep(sc.Idle + sc.Idle/2 + 10*time.Millisecond)
+			synctest.Wait()
+			c.mu.Lock()
+			if c.cnt["policy_instances_closed_by_idle"] > before {
+				c.cnt["idle_steps_that_idled"]++
+			}
+			c.mu.Unlock()
+		case "connect":
+			cc.Connect()
 		case "behav":
 			var q []chanfix.Behavior
 			for _, b := range s.B {
@@ -723,6 +806,9 @@ func (c *ctl) judgeFinished(r *rpcRec, now time.Duration) {
 		return false
 	}
 	c.sigs["finished/"+lastOutcome(last)+"/wfr="+strconv.FormatBool(r.wfr)+"/"+r.code.String()] = true
+	if last != nil && last.g < r.gStart && (last.outcome == "err" || last.outcome == "status") && strings.Contains(r.msg, errText(last.g)) {
+		c.v("stale-picker-error-surfaced", "rpc %d ended with %v %q: that is the error of picker generation %d, which was no longer current when the RPC started (oldest usable generation %d)", r.id, r.code, r.msg, last.g, r.gStart)
+	}
 	switch {
 	case last == nil || last.outcome == "nosc" || last.cold || (last.outcome == "err" && r.wfr):
 		c.cnt["finished_while_pick_had_to_block"]++
@@ -785,9 +871,10 @@ func TestVerifC32(t *testing.T) {
 	r := vlib.Start(t, "C32")
 	runFam(t, r, "mixed", r.N(900, 16000)/light())
 	runFam(t, r, "health", r.N(500, 9000)/light())
+	runFam(t, r, "idle", r.N(600, 9000)/light())
 	r.Finish(vlib.Spec{
 		Level: "exploration",
-		Rule:  "real ClientConn (idleness off) with a test LB policy: one subchannel per address (hot = kept connected, cold = never connected, hc = connected with client-side health checking whose Watch stream the scripted server answers only when the script says so); 15-60 steps: publish picker generation g+1 (ErrNoSubConnAvailable / plain error / status error incl. A54-restricted codes / a fixed subchannel, together with a random connectivity state), start 1-3 RPCs (fail-fast or wait-for-ready, no deadline / 300ms / 2s), cancel one, kill or GOAWAY a live connection, report SERVING / NOT_SERVING, switch an address to refuse / accept / accept-then-close, virtual sleeps. Oracles on the Pick log: every Pick of an RPC uses a generation >= the one completely published before the RPC started and >= the one completely published before its previous Pick; after ErrNoSubConnAvailable, a never-connected subchannel or (wait-for-ready) a plain error the next Pick is on a strictly newer generation and the RPC only ends by cancellation/deadline; a plain error ends a fail-fast RPC with UNAVAILABLE carrying it, a status error ends any RPC with that status (INTERNAL for restricted codes); at every quiescent point no RPC is still blocked in its pick on an older generation than the latest completely published one, none is pending after a terminal pick result, after cancellation or past its deadline; server side: an RPC only arrives on a connection of a subchannel some Pick returned for it, never on a health-checked connection that has not reported SERVING (subchannel never READY), nor - for RPCs started after GOAWAY / NOT_SERVING + quiescence - on that connection. Non-trivial = blocked picks were checked and >= 2 pickers published; distinct = number of different (family, blocked|finished, last pick outcome, wait-for-ready, final status code) facts observed in non-trivial cases.",
+		Rule:  "real ClientConn with a test LB policy (idleness off, except in family idle: idle timeout 1-5 s in virtual time, steps that cancel every RPC and sleep past the timeout so that the channel closes its policy instance, then RPCs / Connect wake it up while the re-created instance has not published yet; a Pick by an RPC started after an instance was closed must never run on one of that instance's pickers and its error must never be the RPC's status): one subchannel per address (hot = kept connected, cold = never connected, hc = connected with client-side health checking whose Watch stream the scripted server answers only when the script says so); 15-60 steps: publish picker generation g+1 (ErrNoSubConnAvailable / plain error / status error incl. A54-restricted codes / a fixed subchannel, together with a random connectivity state), start 1-3 RPCs (fail-fast or wait-for-ready, no deadline / 300ms / 2s), cancel one, kill or GOAWAY a live connection, report SERVING / NOT_SERVING, switch an address to refuse / accept / accept-then-close, virtual sleeps. Oracles on the Pick log: every Pick of an RPC uses a generation >= the one completely published before the RPC started and >= the one completely published before its previous Pick; after ErrNoSubConnAvailable, a never-connected subchannel or (wait-for-ready) a plain error the next Pick is on a strictly newer generation and the RPC only ends by cancellation/deadline; a plain error ends a fail-fast RPC with UNAVAILABLE carrying it, a status error ends any RPC with that status (INTERNAL for restricted codes); at every quiescent point no RPC is still blocked in its pick on an older generation than the latest completely published one, none is pending after a terminal pick result, after cancellation or past its deadline; server side: an RPC only arrives on a connection of a subchannel some Pick returned for it, never on a health-checked connection that has not reported SERVING (subchannel never READY), nor - for RPCs started after GOAWAY / NOT_SERVING + quiescence - on that connection. Non-trivial = blocked picks were checked and >= 2 pickers published; distinct = number of different (family, blocked|finished, last pick outcome, wait-for-ready, final status code) facts observed in non-trivial cases.",
 		Assumptions: []string{"a publication is complete when balancer.ClientConn.UpdateState has returned",
 			"no retry policy is configured; transparent retries re-enter the pick with the same rpc id, which the generation oracles allow (>=, strictly > only after a blocking result)"},
 		Floor: 30,
